@@ -39,11 +39,16 @@ TYPES = {
     "unit": ({"type": "null"}, [None], None, None),
     "any": ({}, [1, {"k": [True]}], None, {"d": 1}),
     "tuple": ({"type": "array", "items": [INT, {"type": "string"}], "minItems": 2, "maxItems": 2}, [[1, "a"], [2, ""]], None, [7, "d"]),
+    # references to constrained newtypes that carry a definition-level default of their OWN (differing from the member's)
+    "ref_label": ({"$ref": "#/definitions/Label"}, ["ab", "c"], "x" * 17, "root"),
+    "ref_level": ({"$ref": "#/definitions/Level"}, [1, 3], None, 3),
     "uuid": ({"type": "string", "format": "uuid"}, ["00000000-0000-0000-0000-000000000000", "f81d4fae-7dec-11d0-a765-00a0c91e6bf6"], None, None),
 }
 STATES = ["req", "opt", "dflt", "dflt0"]
 # the schema restates the type's implicit default (0, "", false, [], {}, null): typify treats the member like an optional one
-INTRINSIC0 = {"string": "", "str_max2": "", "integer": 0, "u8": 0, "bool": False, "vec": [], "map": {}, "number": 0, "set": [], "map_any": {}, "nullable": None}
+INTRINSIC0 = {"string": "", "str_max2": "", "integer": 0, "u8": 0, "bool": False, "vec": [], "map": {}, "number": 0, "set": [], "map_any": {}, "nullable": None,
+              "ref_label": "", "ref_level": 0}
+XDEFS = {"Label": {"type": "string", "maxLength": 16, "default": "anon"}, "Level": {"type": "integer", "enum": [0, 1, 2, 3], "default": 2}}
 NAMES = ["a", "foo-bar", "c"]
 
 
@@ -84,7 +89,7 @@ def mk(members):
     T = {"type": "object", "properties": props}
     if req:
         T["required"] = req
-    doc = {"definitions": {"P": P, "T": T}}
+    doc = {"definitions": dict({"P": P, "T": T}, **({k: v for k, v in XDEFS.items() if any(m["type"] == "ref_" + k.lower() for m in members)}))}
     mid = "+".join("%s:%s" % (m["type"], m["state"]) for m in members)
     return {"id": "builder[%s]" % mid, "doc": doc, "target": "T", "members": [dict(m, name=n) for n, m in zip(NAMES, members)],
             "settings": {"struct_builder": True}}
